@@ -365,6 +365,56 @@ pub fn c12(ctx: &mut Ctx, tier: &str, seed: u64) {
             }
         }
     }
+    // HUGE names (thorough tier): more than 2^31 bytes, all dots / letters with one late dot — a count or an
+    // offset that type inference made an `i32` (the harness is built with overflow checks) shows only here
+    if t {
+        let n = (1usize << 31) + 5;
+        for which in 0..2 {
+            let name: Vec<u8> = if which == 0 {
+                vec![b'.'; n]
+            } else {
+                let mut v = vec![b'a'; n];
+                v[n - 3] = b'.';
+                v
+            };
+            let (want_stem, want_ext) = if which == 0 { (n - 1, 0usize) } else { (n - 3, 2usize) };
+            let text = std::str::from_utf8(&name).expect("ascii");
+            for win in [false, true] {
+                ctx.evals += 1;
+                let rp = format!("x.huge-name {} {} bytes, {}", gen::e(win), n, if which == 0 { "all dots" } else { "letters, a dot before the last two" });
+                at(rp.clone());
+                let r = crate::util::quiet_catch(|| {
+                    let lens = |f: Option<usize>, s: Option<usize>, x: Option<usize>| (f, s, x);
+                    let b = if win {
+                        let p = WindowsPath::new(&name);
+                        lens(p.file_name().map(|x| x.len()), p.file_stem().map(|x| x.len()), p.extension().map(|x| x.len()))
+                    } else {
+                        let p = UnixPath::new(&name);
+                        lens(p.file_name().map(|x| x.len()), p.file_stem().map(|x| x.len()), p.extension().map(|x| x.len()))
+                    };
+                    let u = if win {
+                        let p = Utf8WindowsPath::new(text);
+                        lens(p.file_name().map(|x| x.len()), p.file_stem().map(|x| x.len()), p.extension().map(|x| x.len()))
+                    } else {
+                        let p = Utf8UnixPath::new(text);
+                        lens(p.file_name().map(|x| x.len()), p.file_stem().map(|x| x.len()), p.extension().map(|x| x.len()))
+                    };
+                    let ty = if win { TypedPath::windows(&name) } else { TypedPath::unix(&name) };
+                    let tl = lens(ty.file_name().map(|x| x.len()), ty.file_stem().map(|x| x.len()), ty.extension().map(|x| x.len()));
+                    (b, u, tl)
+                });
+                let want = (Some(n), Some(want_stem), Some(want_ext));
+                match r {
+                    Err(_) => ctx.fail("huge-name", None, rp, "panicked".into()),
+                    Ok((b, u, tl)) => {
+                        if b != want || u != want || tl != want {
+                            ctx.fail("huge-name", None, rp, format!("(file name, stem, extension) lengths: bytes {:?} UTF-8 {:?} typed {:?}, want {:?}", b, u, tl, want));
+                        }
+                    }
+                }
+            }
+        }
+    }
     ctx.sample(format!("fname w {}", hex(br"C:\dir\.hidden.tar.gz\")));
     ctx.sample(format!("setfn u {} {}", hex(b"/a/b.txt/"), hex(b"c.d")));
 }
